@@ -19,7 +19,7 @@ LEAN = ["Ymq.Props.C13"]
 AUDIT = "Ymq.Audit.C13"
 THEOREMS = ["Ymq.C13." + t for t in (
     "cursor_inv small_recovery table_recovery large_table_recovery recycled_clean listed_complete_inv "
-    "listed_complete listed_complete_rehash cofactor_spec").split()]
+    "listed_complete listed_complete_rehash no_panic cofactor_spec").split()]
 PROFILES = ["release", "chk"]
 TIMEOUT = 120.0
 HYPOTHESES = [
@@ -29,6 +29,8 @@ HYPOTHESES = [
     "index of the first prime of bit length >= l (checked on FBase::new by the sv_fb stream; proved for the synthetic bases: "
     "FB.ofPrimes_WF), both root tables reduced (r < p, property C12), recycled SieveTable.overflows has its 32 slots (Rust type)",
     "Dividers::{modu16, modi64, divmod_uint} are exact remainders/quotients (property C08: modu16_spec, modi64_spec)",
+    "RootsDistinct (theorem no_panic only): the two roots of every prime >= 32768 differ (the debug assertion of Sieve::new); "
+    "no_panic also assumes a non-empty factor base, nblocks <= 2^17, |start offset| <= 2^62 and fresh tables",
 ]
 BLOCK = 32768
 NONE = 0xFFFF
@@ -775,8 +777,9 @@ MODELLED = [
 UNMODELLED = [
     "sieve.rs: the byte array blk (log accumulation in sieve_block), skipbits, thresholds and the SIMD scan of smooths, i.e. WHICH "
     "positions are reported: positions are an input of the model (taken from the implementation's answer for the comparison)",
-    "no-panic (totality) of the sieve model on valid inputs is not proved: the theorems are 'whenever the model returns ...'; "
-    "panic sites are part of the model and are compared with the code in both build profiles",
+    "no-panic is proved (theorem no_panic) for new with fresh tables, sieve_block/next_block and the factor recovery; for recycled "
+    "tables, rehash and cofactor the theorems are 'whenever the model returns ...' and panic sites are only compared with the code "
+    "(both build profiles)",
     "Dividers::{modu16, modi64, divmod_uint} are modelled as %, / (property C08); fbase::try_factor64 (Pollard rho / ECM) is a parameter "
     "of the cofactor model (the driver replays the pair returned by the implementation)",
     "memory safety of get_unchecked / transmute((u8,u8)) layouts: the model indexes the same cells and returns `panic` where an index "
@@ -788,12 +791,13 @@ CLAIM = ("Lean theorems, for all factor bases / root tables / block numbers / po
          "(modu16(r) == off; r == off || r == off + p) hold exactly when the position is congruent to the root; every (offset, prime) "
          "added to a bucket table is found by the lookup except for exactly n_overflows - 32 counted losses (large tables: none); "
          "reset hides every stale entry; hence the factor list of ANY position contains every factor-base prime whose root matches, up "
-         "to the counted losses of the size classes 16..18 (also after rehash); cofactor's factors multiply back and its cofactor has no "
+         "to the counted losses of the size classes 16..18 (also after rehash); on valid inputs no panic site of the modelled code is "
+         "reached (no_panic); cofactor's factors multiply back and its cofactor has no "
          "listed prime factor, so it is 1 or has only prime factors above the bound when the list is complete. The model is tied to the "
          "code by differential runs through the public API (cursor hashes, overflow counters, bucket fill, factor lists) in the release "
          "and checked profiles; an independent Python oracle judges every reported position against every factor-base prime.")
 LEVEL_NOTE = ("Trusted: Lean kernel (+propext, Classical.choice, Quot.sound); the hand-written model's correspondence to the Rust code "
-              "(sampled by the harness in both profiles, not proved); Python integers in the oracle. Theorems are partial-correctness "
-              "statements about the model (panic freedom is not proved). Which positions are reported is outside the model. Dividers "
+              "(sampled by the harness in both profiles, not proved); Python integers in the oracle. Panic freedom is proved for the "
+              "fresh-table pipeline (no_panic) and otherwise only compared. Which positions are reported is outside the model. Dividers "
               "routines are taken exact (C08), try_factor64 enters as a named hypothesis.")
 TECHNIQUE = "Lean 4 proof about a hand model + differential correspondence check + spec oracle"
